@@ -9,6 +9,8 @@ mod serde;
 pub struct Uplink {
     pending: heapless::Vec<u8, FOPTS_MAX_LEN>,
     confirmed: bool,
+    /// An answer did not fit into `pending` since it was last cleared. Transient, not persisted.
+    overflowed: bool,
 }
 
 impl Uplink {
@@ -22,13 +24,22 @@ impl Uplink {
         self.confirmed
     }
     pub fn add_mac_command<M: SerializableMacCommand>(&mut self, cmd: M) {
+        // Answers have to be sent in the order of their requests, so only trailing
+        // ones may be dropped: once one did not fit, later (shorter) ones are not
+        // queued either.
+        if self.overflowed {
+            return;
+        }
         // Check that there's still enough room for MAC commands
         if self.pending.len() + cmd.payload_len() < FOPTS_MAX_LEN {
             let _ = self.pending.push(cmd.cid());
             self.pending.extend_from_slice(cmd.payload_bytes()).unwrap();
+        } else {
+            self.overflowed = true;
         }
     }
     pub fn clear_mac_commands(&mut self, retain_acks: bool) {
+        self.overflowed = false;
         // Certain commands have to be retained until their acknowledgment is confirmed
         if retain_acks {
             use UplinkMacCommand::*;
